@@ -40,7 +40,11 @@ RULE = (
 ASSUMPTIONS = [
     "mido (file format layer) is trusted: the written file is read back with mido.MidiFile",
     "every part starts at timeline position 0 (the exporter evaluates the quarter map at 0)",
-    "all parts of one score share measures and time signatures in musical time; key signatures differ per part",
+    "all parts of one score share measures and time signatures in musical time; key signatures differ per part "
+    "(sub-space tempo-parts also has a pickup in some parts only: quarter 0 of every part is its first downbeat, "
+    "as in Part.quarter_map, and time signatures are not compared for those scores)",
+    "tempo marks are global: a mark of any part stands at the tick of its own musical position; two parts that "
+    "carry a mark at one musical position are only generated with equal values",
     "track and channel numbers are free; only the partition of the notes into tracks and channels is compared",
     "pad_bar: the first time signature may stand at tick 0 (code's reading) or at the image of its position",
     "time_sig_change: checked as 'time signature in force at every measure start' = notated signature for "
@@ -627,6 +631,13 @@ def cfg_voicemix(i, model):
     return out
 
 
+def cfg_tempoparts(i, model):
+    """the three pickup policies (the tick of a tempo mark depends on the policy through the origin), modes,
+    minimum_ppq and the input kind cycled"""
+    return [((i + j) % 6, pol, (0, 7)[(i + j) % 2], 64, "path", ("score", "list")[(i // 2 + j) % 2])
+            for j, pol in enumerate(M.POLICIES)]
+
+
 def gen_options():
     for name, spec in M.option_scores():
         model = M.Model(spec)
@@ -683,6 +694,19 @@ def spaces(tier, seed):
                     "divisions {6,1} alternating; every mode of the 6 in which no equal pitches overlap within a "
                     "track/channel (modes 0 and 5 always), import of the file as written or re-encoded with zero-velocity "
                     "note-ons (alternating)"))
+    tk = M.TEMPO_KINDS if quick else M.TEMPO_KINDS + M.TEMPO_KINDS_MORE
+    sp.append(Space("tempo-parts", lambda: with_configs(M.gen_tempoparts(tk, tk[:3] if quick else tk[:4] + tk[7:9]), cfg_tempoparts), True,
+                    "tempo marks in scores of several parts with different quarter maps (2/4, two bars, quarter 0 = first "
+                    "downbeat): (a) all ordered pairs of %d quarter-map kinds %s (constant divisions, divisions change at the "
+                    "barline or mid-bar) x one-quarter pickup yes/no per part (so also a pickup in one part only) x marks "
+                    "{all candidates in part 1, all in part 2, alternating between the parts, both phases}; candidates = "
+                    "every quarter, the first division after every divisions value starts to hold, the last division of "
+                    "the part; the tempo value is a function of the musical position; (b) exactly one mark in the score: "
+                    "all pairs of the %d constant-divisions kinds x pickups x carrier part x every candidate; (c) three parts: %d triples "
+                    "of kinds x 5 pickup patterns x {all in part k, rotating, 3 phases}; flat parts or the first two in a "
+                    "group (cycled); 3 policies, mode, minimum_ppq {0,7} and input {Score, list} cycled; time signatures "
+                    "are not compared when the pickups of the parts differ"
+                    % (len(tk), [[list(x) for x in k] for k in tk], 3 if quick else 6, len(M.TEMPO_TRIPLES))))
     if quick:
         lt = lambda: M.gen_longtie()
         lt_bounds = "metres %s, smallest divisions with integral beats, no pickup, ends in measure 4 only at its end" % (
